@@ -285,7 +285,7 @@ def check(rep, F, tier, replay=None):
                 for st in bb["st"]:
                     if st[1] == "=" and st[3][0] == "cast" and st[3][1] == "IntToInt":
                         n_c += 1
-                        if e3_.cast_lossy(st[3][3], st[3][4]):
+                        if e3_.cast_lossy(st[3][3], st[3][4]) and not e3_.const_cast_exact(st[3][2], st[3][4]):
                             k_ = "%s|%s->%s" % (F.key(fid_), st[3][3], st[3][4])
                             cnt_[k_] = cnt_.get(k_, 0) + 1
     rep.inst("ACC-cast", max(n_c, 1))
